@@ -31,6 +31,8 @@ func TestProp_WholeRuns(t *testing.T) {
 		panicEvery := rapid.SampledFrom([]int{0, 0, 7, 13}).Draw(rt, "panicEvery")
 		bodyUs := rapid.SampledFrom([]int{0, 0, 50, 500, 2000}).Draw(rt, "bodyMicros")
 		metricsOn := rapid.IntRange(0, 3).Draw(rt, "metricsOn") != 0
+		// some runs are the second run on a metrics instance that already served an identical run
+		secondRun := !long && rapid.IntRange(0, 3).Draw(rt, "secondRunOnSameMetrics") == 0
 
 		var passed, failed atomic.Uint64
 		var inFlight atomic.Int64
@@ -58,6 +60,20 @@ func TestProp_WholeRuns(t *testing.T) {
 		spec.ScenarioFn = scenario
 		spec.WaitTimeout = 20 * time.Second
 		spec.Metrics = metrics.NewInstance(prometheus.NewRegistry(), metricsOn, nil)
+		if secondRun {
+			if _, err := vlib.Execute(spec); err != nil {
+				rt.Fatalf("VERIF-INFRA: cannot execute generated run %s: %v", shape.Desc, err)
+			}
+			if inFlight.Load() != 0 {
+				stats.AddNote("runs_skipped_iterations_still_running", 1)
+				return
+			}
+			passed.Store(0)
+			failed.Store(0)
+			if shape.Mode == "file" {
+				spec.Trigger = nil
+			}
+		}
 		out, err := vlib.Execute(spec)
 		if err != nil {
 			rt.Fatalf("VERIF-INFRA: cannot execute generated run %s: %v", shape.Desc, err)
@@ -83,6 +99,9 @@ func TestProp_WholeRuns(t *testing.T) {
 		}
 		if metricsOn {
 			cls = append(cls, "metrics-on")
+		}
+		if secondRun {
+			cls = append(cls, "second-run-on-same-metrics")
 		}
 		stats.Case("runs", shape.Desc+fmt.Sprint(failEvery, panicEvery, bodyUs, metricsOn), nontrivial, cls, func() any {
 			return map[string]any{"shape": shape.Desc, "failEvery": failEvery, "panicEvery": panicEvery, "bodyMicros": bodyUs,
